@@ -1367,8 +1367,10 @@ class Run:
         """Reference + id clauses on wire messages (pre-state ids plus the
         ones handed out during the op/block are acceptable)."""
         bufs = self.pre_bufs | self.buf_ever
-        cbus = self.pre_cbus | self.bus_ranges(self.cbs)
-        abus = self.pre_abus | self.bus_ranges(self.abs)
+        # (a bus allocated and freed again inside one bind block was the
+        # client's own when the command that names it was issued)
+        cbus = self.pre_cbus | self.bus_ranges(self.cbs) | self.cbus_ever
+        abus = self.pre_abus | self.bus_ranges(self.abs) | self.abus_ever
         for m in wire_msgs:
             p = cmdref.parse(m)
             for pr in p.problems:
@@ -1404,6 +1406,12 @@ class Run:
         self.pre_cbus = self.bus_ranges(self.cbs)
         self.pre_abus = self.bus_ranges(self.abs)
         self.buf_ever = set()
+        self.cbus_ever = set()
+        self.abus_ever = set()
+
+    def note_buses(self):
+        self.cbus_ever |= self.bus_ranges(self.cbs)
+        self.abus_ever |= self.bus_ranges(self.abs)
 
     def compare(self, exp, calls, where, kind):
         wire = []
@@ -1517,6 +1525,7 @@ class Run:
                             raise self._pending
                     else:
                         mine.extend(self.do(op))
+                        self.note_buses()
                     if len(CAP.calls) != n_calls:
                         self.fail('bind_leaked_during_block',
                                   f'{where}: inner op {j} {op[0]} reached the '
